@@ -341,9 +341,17 @@ func runC05(c c05Case, ev *Ev) error {
 			code, _ := op.Extra["p4code"].(string)
 			r.P4.Arm(map[int]string{k: code})
 			o := run.Exec(op)
+			r.P4.WaitQuiet(2 * time.Second)
+			fired, what := r.P4.Fired()
 			r.P4.Arm(nil)
 			if o.NoResp || !o.Alive {
 				return fmt.Errorf("op %d (%s with failing P4Runtime write %d): no response (alive=%v)", i, op.Kind, k, o.Alive)
+			}
+			if fired > 0 && o.Accepted {
+				// the failing write was a clean-up write (the removal of a tunnel peer that lost its last user) whose
+				// failure the agent tolerates: the switch has refused a deletion, by the harness's doing, and nothing
+				// the agent does later can be held against this property (C15 speaks about accepting such a request)
+				return fmt.Errorf("DISCARD: failing clean-up write tolerated by an accepted %s; write %d carried %v", op.Kind, k, what)
 			}
 			if !o.Accepted {
 				rejected++
